@@ -260,6 +260,19 @@ def _plain_type_expr(e):
     return isinstance(e, (ast.Name, ast.Attribute))
 
 
+def _reads_variable(e, st, fr):
+    """An except clause whose class comes from a variable (`except self.failureException:`, `except expected:`): the
+    expression has to be evaluated -- the name it ends in says nothing."""
+    parts = e.elts if isinstance(e, ast.Tuple) else [e]
+    for x in parts:
+        root = x
+        while isinstance(root, ast.Attribute):
+            root = root.value
+        if isinstance(root, ast.Name) and (root.id == fr.selfname or st.has(fr.local(root.id))):
+            return True
+    return False
+
+
 def lexical_parent(func):
     """The function (or lambda) whose body defines ``func``, or None for methods / module-level functions."""
     n = getattr(func, "_parent", None)
@@ -1707,7 +1720,7 @@ class Interp:
                 remaining = True
                 for h in s.handlers:
                     dyn = getattr(d, "match_dynamic", None)
-                    m = dyn(self, h.type, payload, s2, fr) if dyn is not None and h.type is not None and not _plain_type_expr(h.type) else None
+                    m = dyn(self, h.type, payload, s2, fr) if dyn is not None and h.type is not None and (not _plain_type_expr(h.type) or _reads_variable(h.type, s2, fr)) else None
                     if m is None:
                         m = d.match(h.type, payload, s2)
                     if m == "no":
